@@ -355,6 +355,7 @@ class Schedule:  # 0404
             return payload_set
 
         if payload[SZ_TOTAL_FRAGS] != _len(payload_set):  # sched has changed
+            self._full_schedule = {}  # what was held is superseded
             payload_set = init_payload_set(payload)
             if None not in payload_set:  # the new schedule is a single fragment
                 self._proc_payload_set(payload_set)
@@ -366,6 +367,7 @@ class Schedule:  # 0404
         ):  # sets self._schedule
             return payload_set
 
+        self._full_schedule = {}  # a mix of two versions: what was held is superseded
         return init_payload_set(payload)
 
     async def set_schedule(
